@@ -42,7 +42,7 @@ def flag_on(streams, tags):
             out["distinct"] += [q for q in reqs if len(q) >= 24]
             out["samples"].append({"request": reqs[len(reqs) // 2][:300], "impl": impl[len(reqs) // 2][:200]})
             for q, a, b2 in zip(reqs, impl, model):
-                if a != b2:
+                if a != b2 and " oracle-only" not in q and " hazard=" not in q:
                     out["disagreements"].append(("flag-on:" + name, q, a, b2))
             if os.path.exists(orc):
                 for l in open(orc):
